@@ -254,6 +254,8 @@ def _file_method(ex, recv, name, args, kwargs):
     if name == "seek":
         ex.setfield(recv, "pos", args[0])
         return args[0]
+    if name == "tell":
+        return recv.fields["pos"]
     if name == "read":
         c, p = recv.fields["content"], recv.fields["pos"]
         ct = term(c, STR)
@@ -271,7 +273,7 @@ M.METHOD_HOOKS.append(_file_method)
 
 
 def _file_attr(ex, obj, name):
-    if is_file(obj) and name in ("write", "getvalue", "seek", "read", "close", "flush"):
+    if is_file(obj) and name in ("write", "getvalue", "seek", "tell", "read", "close", "flush"):
         return Bound(obj, None, name)
     return NotImplemented
 
@@ -332,11 +334,21 @@ def _parse_msd(ex, args, kwargs):
     return ParamIter(remaining_text(f), ig, f)
 
 
+def check_decodable(ex, f):
+    """T-FS: reading a text file raises UnicodeDecodeError iff its bytes do not decode in its encoding"""
+    u = f.fields.get("undecodable")
+    if u is not None and not f.fields.get("decode_checked"):
+        f.fields["decode_checked"] = True
+        if ex.branch(u, "undecodable"):
+            ex.raise_(UnicodeDecodeError, "codec can't decode byte", tag="undecodable")
+
+
 def _consume(ex, it: ParamIter, all_=False):
     """effect of reading from the underlying file"""
     f = it.file
     if f is None:
         return
+    check_decodable(ex, f)
     ct = term(f.fields["content"], STR)
     if all_:
         ex.setfield(f, "pos", SV(z3.Length(ct), INT))
@@ -350,6 +362,8 @@ def _consume(ex, it: ParamIter, all_=False):
 
 def _param_iterable(ex, v):
     if isinstance(v, ParamIter):
+        if v.file is not None:
+            check_decodable(ex, v.file)
         ps = v.params()
         n = z3.Length(ps)
         start = v.taken
@@ -406,3 +420,65 @@ def _iterobj(ex, v):
 
 
 M.ITEROBJ_HOOKS.append(_iterobj)
+
+
+# ---------------------------------------------------------------------------
+# "".join(file) / "".join(iterator of lines) / itertools.tee
+
+
+class LinesIter:
+    """an iterator of text lines whose concatenation is `text`; consuming it exhausts the source"""
+
+    def __init__(self, text, source=None):
+        self.text = text          # String term: concatenation of the remaining lines
+        self.source = source      # file object it reads from (position moves to the end), or None
+
+
+def _join_hook(ex, sep, xs):
+    if isinstance(xs, LinesIter) or is_file(xs):
+        if not (isinstance(sep, str) and sep == ""):
+            raise Unsupported("join of lines with a non-empty separator")
+        ex.assumptions_used.add("T-STD: ''.join(lines of a text) is the text (from the current position)")
+        if isinstance(xs, LinesIter):
+            if xs.source is not None:
+                check_decodable(ex, xs.source)
+                t = remaining_text(xs.source)
+                ex.setfield(xs.source, "pos", SV(z3.Length(term(xs.source.fields["content"], STR)), INT))
+                return SV(z3.simplify(t), STR)
+            return SV(xs.text, STR)
+        check_decodable(ex, xs)
+        t = remaining_text(xs)
+        ex.setfield(xs, "pos", SV(z3.Length(term(xs.fields["content"], STR)), INT))
+        return SV(z3.simplify(t), STR)
+    return NotImplemented
+
+
+M.JOIN_HOOKS.append(_join_hook)
+
+
+def _tee(ex, args, kwargs):
+    src = args[0]
+    n = args[1] if len(args) > 1 else kwargs.get("n", 2)
+    ex.assumptions_used.add("T-STD: itertools.tee yields independent iterators over the same remaining items")
+    if is_file(src):
+        check_decodable(ex, src)
+        t = z3.simplify(remaining_text(src))
+        ex.setfield(src, "pos", SV(z3.Length(term(src.fields["content"], STR)), INT))
+        return tuple(LinesIter(t) for _ in range(n))
+    if isinstance(src, LinesIter):
+        return tuple(LinesIter(src.text) for _ in range(n))
+    raise Unsupported(f"tee of {src!r}")
+
+
+def _lines_iterable(ex, v):
+    if isinstance(v, tuple) and v and all(isinstance(x, LinesIter) for x in v):
+        return list(v)
+    return NotImplemented
+
+
+def install_tee():
+    import itertools
+    M.REAL_CALL[itertools.tee] = _tee
+
+
+install_tee()
